@@ -572,6 +572,33 @@ pub fn run_type<T: Cat + DecodeAll + DecodeLimit>(ctx: &mut Ctx, stream: &str, n
 				if lans != expect {
 					ctx.oracle_fail("C14", format!("{}: decode_all_with_depth_limit(64, {}) = {} but decode gives {}", name, hex_or_dash(&bs), &lans[..lans.len().min(60)], &dans[..dans.len().min(60)]));
 				}
+				// small limits too: the consume-everything entry point is exactly the limited decode
+				// plus "nothing left", whatever the relation between limit, input length and nesting
+				for limit in 0..=4u32 {
+					if bs.len() > 24 {
+						break;
+					}
+					let lall = catch_unwind(AssertUnwindSafe(|| T::decode_all_with_depth_limit(limit, &mut &bs[..])));
+					let lans = match lall {
+						Ok(Ok(x)) => format!("ok {}", val_string(&x, true)),
+						Ok(Err(_)) => "err".into(),
+						Err(_) => "panic".into(),
+					};
+					let one = catch_unwind(AssertUnwindSafe(|| {
+						let mut s = &bs[..];
+						let r = T::decode_with_depth_limit(limit, &mut s);
+						(r, s.len())
+					}));
+					let expect = match one {
+						Ok((Ok(x), 0)) => format!("ok {}", val_string(&x, true)),
+						Ok(_) => "err".into(),
+						Err(_) => "panic".into(),
+					};
+					ctx.emit("decall", name, &format!("limall {} {} {}", limit, T::ty(bs.len() + 1), hex_or_dash(&bs)), &lans);
+					if lans != expect {
+						ctx.oracle_fail("C14", format!("{}: decode_all_with_depth_limit({}, {}) = {} but decode_with_depth_limit + nothing left gives {}", name, limit, hex_or_dash(&bs), &lans[..lans.len().min(50)], &expect[..expect.len().min(50)]));
+					}
+				}
 			}
 		},
 		"skip" => {
@@ -925,6 +952,7 @@ fn big_for<T: Cat + Clone, C: Cat + FromIterator<T>>(ctx: &mut Ctx, name: &str) 
 					// the round trip (C02), self-delimitation (C14) and input independence (C08) all fail here
 					ctx.oracle_fail("C08", msg.clone());
 					ctx.oracle_fail("C02", msg.clone());
+					ctx.oracle_fail("C03", msg.clone());
 					ctx.oracle_fail("C14", msg);
 				},
 				Err(_) => ctx.oracle_fail("C03", format!("{}: decoding {} elements from an input of unknown length panicked", name, n)),
@@ -944,6 +972,7 @@ fn big_for<T: Cat + Clone, C: Cat + FromIterator<T>>(ctx: &mut Ctx, name: &str) 
 						let msg = format!("{}: two encodings of {} elements in a row through IoReader: first ok={} consumed {} (encoding is {} bytes), second ok={} consumed {}", name, n, a.is_some(), p1, one_len, b.is_some(), p2 - p1);
 						ctx.oracle_fail("C08", msg.clone());
 						ctx.oracle_fail("C02", msg.clone());
+						ctx.oracle_fail("C03", msg.clone());
 						ctx.oracle_fail("C14", msg);
 					},
 					Err(_) => ctx.oracle_fail("C03", format!("{}: decoding {} elements from IoReader panicked", name, n)),
